@@ -561,6 +561,110 @@ def build_descriptors(rng, target=2000):
     return out
 
 
+# ----------------------------------------------------------------------------- registry siblings
+# Entries of one registry that share a leading block but resolve differently (nested 28/36-bit assignments below
+# one 24-bit OUI block, publishers below one ISBN group ...).  Anything the library remembers per leading block
+# instead of per number shows only when two such numbers are looked up one after the other.
+
+def _parse_dat(path):
+    """independent reading of a registry file: [(indent, low, high, rest of line)]"""
+    rows = []
+    try:
+        src = open(path, encoding='utf-8').read()
+    except OSError:
+        return rows
+    for line in src.split('\n'):
+        if not line.strip() or line.lstrip().startswith('#'):
+            continue
+        indent = len(line) - len(line.lstrip(' '))
+        body = line.strip()
+        head, _, rest = body.partition(' ')
+        for rng_ in head.split(','):
+            low, _, high = rng_.partition('-')
+            rows.append((indent, low, high or low, rest))
+    return rows
+
+
+def registry_sibling_numbers(limit_parents=8):
+    """{module name: [(number1, number2), ...]}: pairs of numbers under one parent entry with different children"""
+    import common
+    import re as _re
+    out = {}
+    for mod in common.number_modules():
+        try:
+            src = open(mod.__file__, encoding='utf-8').read()
+        except OSError:
+            continue
+        names = _re.findall(r"numdb\.get\('([^']+)'\)", src)
+        if not names:
+            continue
+        valid = common.valid_numbers(mod.__name__)
+        compact = getattr(mod, 'compact', None)
+        length, sample = None, None
+        for v in valid:
+            try:
+                c = compact(v) if compact else v
+            except Exception:   # noqa: B902
+                continue
+            if isinstance(c, str):
+                length, sample = len(c), c
+                break
+        if length is None:
+            continue
+        pairs = []
+        for nm in names:
+            rows = _parse_dat(os.path.join(common.REPO, 'stdnum', nm + '.dat'))
+            # walk: stack of (indent, prefix so far)
+            stack = []
+            children = {}          # parent prefix -> [(child low, rest)]
+            for indent, low, high, rest in rows:
+                while stack and stack[-1][0] >= indent:
+                    stack.pop()
+                prefix = stack[-1][1] if stack else ''
+                children.setdefault(prefix, []).append((low, rest))
+                stack.append((indent, prefix + low))
+            parents = [(pfx, ch) for pfx, ch in children.items() if pfx and len({r for _, r in ch}) >= 2]
+            parents.sort(key=lambda t: (-len(t[1]), t[0]))
+            for pfx, ch in parents[:limit_parents]:
+                (l1, r1) = ch[0]
+                other = [c for c in ch[1:] if c[1] != r1]
+                if not other:
+                    continue
+                l2 = other[len(other) // 2][0]
+                nums = []
+                for low in (l1, l2):
+                    body = pfx + low
+                    if len(body) > sum(1 for c_ in sample if c_.isalnum()):
+                        continue
+                    k, chars = 0, []
+                    for c_ in sample:        # overwrite the leading letters/digits, keep the separators where they are
+                        if c_.isalnum() and k < len(body):
+                            chars.append(body[k])
+                            k += 1
+                        else:
+                            chars.append(c_)
+                    n = ''.join(chars)
+                    ok = False
+                    try:
+                        ok = mod.is_valid(n)
+                    except Exception:   # noqa: B902
+                        ok = False
+                    if not ok:      # repair the last character (check digit) by search
+                        for ch_ in '0123456789X':
+                            try:
+                                if mod.is_valid(n[:-1] + ch_):
+                                    n, ok = n[:-1] + ch_, True
+                                    break
+                            except Exception:   # noqa: B902
+                                pass
+                    nums.append(n)
+                if len(nums) == 2 and nums[0] != nums[1]:
+                    pairs.append(tuple(nums))
+        if pairs:
+            out[mod.__name__] = pairs
+    return out
+
+
 def chunked(xs, n):
     return [xs[i:i + n] for i in range(0, len(xs), n)]
 
@@ -627,6 +731,23 @@ def search(seed, tier):
     t0 = time.time()
     rng = random.Random(seed)
     descs = build_descriptors(rng)
+    # registry siblings: every single-argument function of the registry-backed modules on both numbers of a pair
+    sib_pairs = []
+    have = set(dkey(d) for d in descs)
+    funcs_of = {}
+    for d in descs:
+        if not d.get('kwargs') and len(d.get('args', [])) == 1:
+            funcs_of.setdefault(d['module'], set()).add(d['function'])
+    for modname, pairs in sorted(registry_sibling_numbers().items()):
+        for n1, n2 in pairs:
+            for fn in sorted(funcs_of.get(modname, ())):
+                d1 = {'module': modname, 'function': fn, 'args': [n1]}
+                d2 = {'module': modname, 'function': fn, 'args': [n2]}
+                sib_pairs.append((d1, d2))
+                for d in (d1, d2):
+                    if dkey(d) not in have:
+                        have.add(dkey(d))
+                        descs.append(d)
     keys = [dkey(d) for d in descs]
     bykey = dict(zip(keys, descs))
     failing, distribution = [], {'descriptors': len(descs), 'conditions': {}, 'functions': {}}
@@ -733,6 +854,38 @@ def search(seed, tier):
         failing.append(case_of(d, show(o), show(exp), 'outcome after a call history with mutated results = fresh outcome', site,
                                history=[short(x) for x in prefix],
                                extra={'history_length_before_minimisation': i, 'minimised_history_reproduces': confirmed}))
+
+    # ---- directed histories: the two numbers of a registry-sibling pair, one right after the other, both orders
+    reqs = []
+    flat = []
+    for d1, d2 in sib_pairs:
+        flat.append([d1, d2])
+        flat.append([d2, d1])
+    # one process per function and order keeps unrelated pairs from shadowing each other
+    groups = {}
+    for sq in flat:
+        groups.setdefault((sq[0]['module'], sq[0]['function'], dkey(sq[0]) < dkey(sq[1])), []).append(sq)
+    for key, sqs in sorted(groups.items(), key=lambda kv: str(kv[0])):
+        reqs.append({'mode': 'history', 'descs': [d for sq in sqs for d in sq], 'seed': seed, 'mutate': False})
+    results = run_parallel(reqs)
+    n = 0
+    seen_sib = set()
+    for req, r in zip(reqs, results):
+        if 'error' in r:
+            harness_errors.append('sibling history: ' + r['error'])
+            continue
+        for i, (d, o) in enumerate(zip(req['descs'], r['result'])):
+            n += 1
+            v = check(d, o, 'sibling-history', None)
+            site = 'c13:history:%s.%s' % (d['module'], d['function'])
+            if v and site not in seen_sib and site not in seen_sites:
+                seen_sib.add(site)
+                prev = req['descs'][i - 1] if i % 2 == 1 else None
+                failing.append(case_of(d, show(o), show(v[2]), 'outcome right after a lookup of a registry sibling = fresh outcome', site,
+                                       history=[short(prev)] if prev else [short(x) for x in req['descs'][:i]],
+                                       extra={'generator': 'registry-siblings'}))
+    cases += n
+    distribution['conditions']['registry-sibling pairs (%d pairs, both orders)' % len(sib_pairs)] = n
 
     phases['history'] = round(time.time() - t0, 1)
     # ---- threads
